@@ -5,7 +5,7 @@ import io
 import os
 
 from mc.gen import chains, content
-from mc.lib7z import install_key_cache
+from mc.lib7z import fixed_random, install_key_cache
 from mc.ref import ref7z
 
 PW = "pw"
@@ -30,7 +30,7 @@ def zero_base(chain: str, header: str):
     ms = _members(3)
     ms[1] = ("dir/zero.bin", ZERO_CRC)
     bio = io.BytesIO()
-    with py7zr.SevenZipFile(bio, "w", filters=chains.py_filters(chain)) as z:
+    with fixed_random("zero"), py7zr.SevenZipFile(bio, "w", filters=chains.py_filters(chain)) as z:
         _hdr(z, header)
         for n, d in ms:
             z.writestr(d, n)
@@ -42,6 +42,13 @@ def py_base(chain: str, header: str, folders: int = 1, tmpdir: str | None = None
 
     install_key_cache()
     pw = PW if (chains.needs_password(chain) or header == "encrypted") else None
+    with fixed_random(f"base:{chain}:{header}:{folders}"):
+        return _py_base(chain, header, folders, pw)
+
+
+def _py_base(chain, header, folders, pw):
+    import py7zr
+
     ms = _members(3)
     if folders == 1:
         bio = io.BytesIO()
